@@ -297,9 +297,9 @@ def check(tier: str) -> int:
     # ENVIRONMENT: with little interpreter stack left (a lowered recursion limit, a deep caller) a long chain may be refused
     # with RecursionError -- but a signature that IS issued must still be the same for commuted forms
     import sys as _sys
-    terms = [f"x * {i}" if i % 3 else f"(y + {i})" for i in range(60)]
+    terms = [f"x * {i}" if i % 3 else f"(y + {i})" for i in range(400)]
     fwd, rev = " + ".join(terms), " + ".join(reversed(terms))
-    for limit in (None, 220, 140):
+    for limit in (None, 350, 200):
         old_limit = _sys.getrecursionlimit()
         try:
             if limit:
@@ -312,7 +312,7 @@ def check(tier: str) -> int:
             _sys.setrecursionlimit(old_limit)
         run.evaluations += 1
         if sa != sb:
-            run.violation("environment:little-stack", f"with the recursion limit at {limit or old_limit} a 60-term sum and its reversal get different signatures", {"expr": fwd, "other": rev})
+            run.violation("environment:little-stack", f"with the recursion limit at {limit or old_limit} a 400-term sum and its reversal get different signatures", {"expr": fwd, "other": rev})
     run.extra["trees_exhaustive"] = n
     run.extra["sampled_beyond_bound"] = m
     run.sample({"tree": "((x + y) * (y + x))", "signature": sig("((x + y) * (y + x))")})
